@@ -44,3 +44,34 @@ Fixpoint tree_eqb (a b : Tree) {struct a} : bool :=
          end) xs ys
   | _, _ => false
   end.
+
+(* induction principle for the nested type *)
+Section TreeInd.
+  Variable P : Tree -> Prop.
+  Hypothesis HI : forall z, P (I z).
+  Hypothesis HL : forall l, Forall P l -> P (L l).
+  Fixpoint Tree_ind' (t : Tree) : P t :=
+    match t with
+    | I z => HI z
+    | L l => HL l ((fix go (l : list Tree) : Forall P l :=
+                      match l with [] => Forall_nil P | x :: r => Forall_cons x (Tree_ind' x) (go r) end) l)
+    end.
+End TreeInd.
+
+Lemma tree_eqb_eq a b : tree_eqb a b = true <-> a = b.
+Proof.
+  revert b. induction a as [z|l IH] using Tree_ind'; intros [y|m]; simpl.
+  - rewrite Z.eqb_eq. split; congruence.
+  - split; discriminate.
+  - split; discriminate.
+  - revert m. induction IH as [|x l Hx Hl IHl]; intros [|y m].
+    + split; reflexivity.
+    + split; discriminate.
+    + split; discriminate.
+    + rewrite andb_true_iff, Hx. specialize (IHl m). split.
+      * intros [E1 E2]. apply IHl in E2. congruence.
+      * intros E. inversion E; subst. split; [reflexivity|]. apply IHl. reflexivity.
+Qed.
+
+Lemma tree_eqb_refl a : tree_eqb a a = true.
+Proof. apply tree_eqb_eq. reflexivity. Qed.
